@@ -81,6 +81,27 @@ def region_pair(case, kind, warm):
     mk = mk_rect if kind == "rect" else mk_ell
     if not case.get("first"):
         return mk(case["r1"]), mk(case["r2"]), case["r1"], case["r2"]
+    mode = case["first"].get("mode", "update")
+    if kind == "rect" and mode != "update":
+        # objects with intersect_iteratively=True built around the target box (padded on every side by the widths of the
+        # 'first' box, so the intersection is the target box), compared once, then refined to the target box through the
+        # public intersect() or through update() (which intersects): what iterative refinement does every round
+        from vopy.confidence_region import RectangularConfidenceRegion
+
+        objs, out = [], []
+        for key in ("r1", "r2"):
+            lo, hi = np.array(case[key]["lo"], float), np.array(case[key]["hi"], float)
+            pad = np.array(case["first"][key]["hi"], float) - np.array(case["first"][key]["lo"], float)
+            objs.append(RectangularConfidenceRegion(len(lo), lo - pad, hi + pad[::-1], intersect_iteratively=True))
+        warm(objs[0], objs[1])
+        for R, key in zip(objs, ("r1", "r2")):
+            lo, hi = np.array(case[key]["lo"], float), np.array(case[key]["hi"], float)
+            if mode == "intersect":
+                R.intersect(lo, hi)
+            else:
+                R.update((lo + hi) / 2, np.diag(((hi - lo) / 2) ** 2), np.array(1.0))
+            out.append({"lo": np.asarray(R.lower, float).tolist(), "hi": np.asarray(R.upper, float).tolist()})
+        return objs[0], objs[1], out[0], out[1]
     R1, R2 = mk(case["first"]["r1"]), mk(case["first"]["r2"])
     warm(R1, R2)
     out = []
@@ -100,7 +121,8 @@ def st_first_pair(draw, kind, m, scale, small=False):
     """The pair the objects are built for before they are updated (same dimension, comparable size)."""
     f = scale * draw(st.sampled_from([0.3, 1.0, 1.0, 3.0]))
     if kind == "rect":
-        return {"r1": draw(st_rect(m, f)), "r2": draw(st_rect(m, f))}
+        return {"r1": draw(st_rect(m, f)), "r2": draw(st_rect(m, f)),
+                "mode": draw(st.sampled_from(["update", "update", "intersect", "update_iter"]))}
     kw = {"a_range": (10, 50), "always_rotated": True} if small else {}
     return {"r1": draw(st_ell(m, f, **kw)), "r2": draw(st_ell(m, f, **kw))}
 
